@@ -321,6 +321,9 @@ class VM:
             except Unspecified as e:
                 self.results.append(Path('unspecified', self._c, self._st.ev, str(e), self._st.m))
             except Violation as e:
+                extra = e.info.pop('_conds', None)
+                if extra:
+                    self._c = list(self._c) + list(extra)
                 self.results.append(Path('violation', self._c, self._st.ev, dict(e.info, what=e.what, pc=self._st.pc,
                                          instr=str(self.P.code[self._st.pc]) if 0 <= self._st.pc < len(self.P.code) else None), self._st.m))
             except Inconclusive as e:
@@ -334,7 +337,7 @@ class VM:
             return self.get(st.mem, a.val, self.W, self.sizes['state'])
         return self.get(self.const, a.val, self.W, self.sizes['const'])
 
-    def resolve_addr(self, st, conds, addr, work):
+    def resolve_addr(self, st, conds, addr, work, ins=None, kind=None, n=0):
         """concrete address; forks on the other feasible values of a symbolic address"""
         if isc(addr):
             return addr, conds
@@ -342,6 +345,9 @@ class VM:
         if not vals:
             raise Unspecified('infeasible path at address resolution')
         if len(vals) > self.addr_cap:
+            if self.mon is not None and kind is not None:
+                # too many values to enumerate: let the monitor ask the solver for one outside the permitted regions
+                self.mon.wide(self, st, ins, kind, addr, n, conds)
             raise Unspecified('address has more than %d feasible values' % self.addr_cap)
         for v in vals[1:]:
             self.nforks += 1
@@ -521,7 +527,7 @@ class VM:
                 addr = self.opval(st, A[1])
                 if len(op) == 4:
                     addr = T.arith('add', addr, self.opval(st, A[2]))
-                addr, conds = self.resolve_addr(st, conds, addr, work)
+                addr, conds = self.resolve_addr(st, conds, addr, work, ins, 'load' if op[2] == 's' else None, n)
                 self._c = conds
                 if op[2] == 's':
                     if mon is not None:
@@ -544,7 +550,7 @@ class VM:
                 addr = self.opval(st, A[0])
                 if len(op) == 4:
                     addr = T.arith('add', addr, self.opval(st, A[1]))
-                addr, conds = self.resolve_addr(st, conds, addr, work)
+                addr, conds = self.resolve_addr(st, conds, addr, work, ins, 'store', n)
                 self._c = conds
                 if addr < 0 or addr + n > ssize:
                     raise Unspecified('store outside state section at %d' % addr)
@@ -589,6 +595,9 @@ class Monitor:
     def arith(self, vm, st, ins, op, l, r, v):
         pass
 
+    def wide(self, vm, st, ins, kind, addr, n, conds):
+        pass
+
 
 class Monitors(Monitor):
     def __init__(self, *ms):
@@ -623,3 +632,7 @@ class Monitors(Monitor):
     def arith(self, vm, st, ins, op, l, r, v):
         for m in self.ms:
             m.arith(vm, st, ins, op, l, r, v)
+
+    def wide(self, vm, st, ins, kind, addr, n, conds):
+        for m in self.ms:
+            m.wide(vm, st, ins, kind, addr, n, conds)
